@@ -181,3 +181,48 @@ Definition check_C09 := bcheck bev_is_wait false false mon_C09.
 Definition check_C03b := bcheck bev_is_raw true false mon_C03b.
 Definition check_C04b := bcheck bev_is_raw true false mon_C04b.
 Definition check_C05b := bcheck bev_is_raw true false mon_C05b.
+
+(* ---------------------------------------------------------------- lock-order graph of an execution (C01) *)
+(* Every blocking acquisition made (or waited for) while holding other locks adds the edges held -> wanted.  The
+   deadlock-freedom theorem rests on a rank function that every such edge ascends; an execution of the
+   implementation whose edges form a cycle has left that discipline, whether or not this schedule deadlocked. *)
+Fixpoint drop_hold (t : tid) (l : lock) (h : list (tid * lock)) : list (tid * lock) :=
+  match h with
+  | [] => []
+  | (t', l') :: r => if Nat.eqb t t' && Nat.eqb l l' then r else (t', l') :: drop_hold t l r
+  end.
+
+Definition locks_held (t : tid) (h : list (tid * lock)) : list lock :=
+  map snd (filter (fun x => Nat.eqb t (fst x)) h).
+
+Fixpoint order_edges (h : list (tid * lock)) (evs : list bev) : list (lock * lock) :=
+  match evs with
+  | [] => []
+  | BE (ERaw t k l (RUnit | RBool true)) :: r =>
+      if is_acq_rop k
+      then (if rop_blocking k then map (fun l' => (l', l)) (locks_held t h) else []) ++ order_edges ((t, l) :: h) r
+      else order_edges (drop_hold t l h) r
+  | BWait t l held :: r => map (fun l' => (l', l)) held ++ order_edges h r
+  | _ :: r => order_edges h r
+  end.
+
+Definition has_edge (es : list (lock * lock)) (a b : lock) : bool :=
+  existsb (fun e => Nat.eqb (fst e) a && Nat.eqb (snd e) b) es.
+
+Definition close_once (nodes : list lock) (es : list (lock * lock)) : list (lock * lock) :=
+  es ++ flat_map (fun a => flat_map (fun c =>
+          if negb (has_edge es a c) && existsb (fun b => has_edge es a b && has_edge es b c) nodes then [(a, c)] else [])
+        nodes) nodes.
+
+Fixpoint close_n (n : nat) (nodes : list lock) (es : list (lock * lock)) : list (lock * lock) :=
+  match n with 0 => es | S n' => close_n n' nodes (close_once nodes es) end.
+
+Definition acyclic_order (nl : nat) (evs : list bev) : bool :=
+  let nodes := seq 0 nl in
+  let es := close_n (S (Nat.log2 nl)) nodes (order_edges [] evs) in   (* each round doubles the path length covered *)
+  negb (existsb (fun a => has_edge es a a) nodes).
+
+Definition check_C01' (b : bscen) (sched : list tid) (impl : bobs) : verdict :=
+  let v := check_C01 b sched impl in
+  mkv (v_strict v) (v_proj v && acyclic_order (sc_nlocks (bs_sc b)) (bo_evs impl)) (v_mon v) (v_monk v).
+Definition acyclic_impl (b : bscen) (impl : bobs) : bool := acyclic_order (sc_nlocks (bs_sc b)) (bo_evs impl).
